@@ -181,12 +181,22 @@ def cint(c):
     return {"o": ints(c[:, 1]), "c": ints(c[:, 2]), "h": ints(c[:, 3]), "l": ints(c[:, 4]), "v": ints(c[:, 5])}
 
 
-def scaled(c, s):
-    if s == 1.0:
+def scaled(c, s, level=0.0):
+    """prices -> level + s * price (volumes unchanged).  Powers of two keep every value exact; with a level the lattice
+    integers are price offsets in ticks of size s (huge / tiny price levels with small ranges relative to the level)"""
+    if s == 1.0 and not level:
         return c
     cc = c.copy()
-    cc[:, 1:5] *= s            # prices only; powers of two keep every value exact
+    cc[:, 1:5] = level + cc[:, 1:5] * s
     return cc
+
+
+# price levels of property C15's "huge and tiny prices": (level, tick).  Definitions that only depend on price
+# DIFFERENCES or their ratios (WILLR, STOCH, CCI, AROON, RSI, ADX/DI/DM, TRANGE/ATR) are evaluated by TLC on the offsets.
+LEVELS = [(2.0e6, 0.5), (5.0e9, 1.0), (2.0 ** -22, 2.0 ** -30)]      # the tiny level (2.4e-7 on a 9.3e-10 grid) is dyadic so
+                                                                    # that the candles themselves are exact, as on the other levels
+LEVEL_WINDOW = ("willr", "stochf_k", "cci", "aroon_up", "aroon_down", "trange")
+LEVEL_SMOOTH = ("rsi", "adx", "di_plus", "di_minus", "dm_plus", "dm_minus", "atr")
 
 
 def job(item):
@@ -217,9 +227,16 @@ def run_case(ta, cs, stats):
     c = lattice(sp[0], sp[1], sp[2], lo, hi)
     ci = cint(c)
     scale = cs.get("scale", 1.0)
-    cs_ = scaled(c, scale)
+    level = 0.0
+    if cs.get("level"):
+        level, scale = cs["level"]
+    cs_ = scaled(c, scale, level)
     n = len(c)
-    series = list(sp) + [lo, hi, scale]
+    series = list(sp) + [lo, hi, scale] + ([level] if level else [])
+    if level:
+        c_run = cs_           # relations / ranges computed on the levelled candles as well
+    else:
+        c_run = c
     res = []
     if kind == "window":
         de, ind, field, k, pk, takes_src, deg = cs["row"]
@@ -228,12 +245,19 @@ def run_case(ta, cs, stats):
             kw[pk] = cs["p"]
         if takes_src:
             kw["source_type"] = cs["src"]
+        div = cs.get("nbdev", 1)                 # stddev / var scale linearly with nbdev: logged per unit of nbdev
+        if div != 1:
+            kw["nbdev"] = div
         o = fld(call(ta, stats, ind, cs_, **kw), field)
+        if div != 1:
+            o = np.asarray(o, dtype=float) / div
         src = cs["src"] if takes_src else "close"
         mult = scale ** deg if not (takes_src and src == "volume") else 1.0
+        k = cs.get("k", k)
         res.append(mk(ind, field or "value", de, toks(o, k, mult), ci, k, series, D_params(kw), p=cs["p"], src=src))
     elif kind == "stoch":
         p, q, dd = cs["p"], cs["q"], cs["d"]
+        c = c_run
         r = call(ta, stats, "stoch", c, fastk_period=p, slowk_period=q, slowd_period=dd)
         kw = {"fastk_period": p, "slowk_period": q, "slowd_period": dd}
         res.append(mk("stoch", "k", "stoch_k", toks(r.k, 4), ci, 4, series, D_params(kw), p=p, q=q))
@@ -283,13 +307,24 @@ def run_case(ta, cs, stats):
                       xc=toks(e3, 4), ca=3, cb=-3, cc=1, cd=1, decp=p, q=3, src=src))
     elif kind == "bollinger":
         p, up, dn, src = cs["p"], cs["up"], cs["dn"], cs["src"]
-        kw = dict(period=p, devup=up, devdn=dn, source_type=src)
+        mt, dt = cs.get("matype", 0), cs.get("devtype", 0)
+        kw = dict(period=p, devup=up, devdn=dn, matype=mt, devtype=dt, source_type=src)
         r = call(ta, stats, "bollinger_bands", c, **kw)
         u, m, l = toks(r.upperband, 2), toks(r.middleband, 2), toks(r.lowerband, 2)
-        res.append(mk("bollinger_bands", "upperband", "sq", m, ci, 2, series, D_params(kw), p=p, src=src, xa=u, ca=up))
-        res.append(mk("bollinger_bands", "lowerband", "sq", m, ci, 2, series, D_params(kw), p=p, src=src, xa=l, ca=dn))
+        if dt == 0:
+            # whatever the middle band is, the bands are k standard deviations of the trailing WINDOW away from it
+            res.append(mk("bollinger_bands", "upperband", "sq", m, ci, 2, series, D_params(kw), p=p, src=src, xa=u, ca=up))
+            res.append(mk("bollinger_bands", "lowerband", "sq", m, ci, 2, series, D_params(kw), p=p, src=src, xa=l, ca=dn))
+        else:
+            dev = call(ta, stats, "mean_ad" if dt == 1 else "median_ad", c, period=p, source_type=src)
+            u4, m4, l4, d4 = toks(r.upperband, 4), toks(r.middleband, 4), toks(r.lowerband, 4), toks(dev, 4)
+            res.append(mk("bollinger_bands", "upperband", "lin", u4, ci, 4, series, D_params(kw), xa=m4, xb=d4, ca=1, cb=up, cd=1))
+            res.append(mk("bollinger_bands", "lowerband", "lin", l4, ci, 4, series, D_params(kw), xa=m4, xb=d4, ca=1, cb=-dn, cd=1))
         res.append(mk("bollinger_bands", "middleband", "order", toks(r.middleband, 4), ci, 4, series, D_params(kw),
                       xa=toks(r.upperband, 4), xb=toks(r.lowerband, 4)))
+        named = call(ta, stats, MA_NAMES[mt], c, period=p, source_type=src)
+        res.append(mk("bollinger_bands", "middleband", "eq", toks(r.middleband, 4), ci, 4, series, D_params(kw),
+                      xa=toks(named, 4), tol=0))
     elif kind == "keltner":
         p, mlt, src, mt = cs["p"], cs["m"], cs["src"], cs["matype"]
         kw = dict(period=p, multiplier=mlt, matype=mt, source_type=src)
@@ -337,7 +372,7 @@ def run_case(ta, cs, stats):
                       "matype=%d,period=%d,source_type=%s,sequential=False" % (mt, p, src), xa=toks(named, 6), tol=0))
     elif kind == "range":
         ind, field, kw, lo_, hi_ = cs["row"]
-        o = fld(call(ta, stats, ind, c, **kw), field)
+        o = fld(call(ta, stats, ind, c_run, **kw), field)
         res.append(mk(ind, field or "value", "range", toks(o, 4), ci, 4, series, D_params(kw), lo=lo_ * 10000, hi=hi_ * 10000))
     elif kind == "nonneg":
         ind, field, kw = cs["row"]
@@ -428,8 +463,49 @@ def plan(ctx):
             j += 1
             cases.append({"kind": "bollinger", "p": p, "up": up, "dn": dn, "src": rng.choice(PRICE_SRC),
                           "series": pick_series(j), "cap": (5, 60)})
+    # non-default middle band / deviation type: the band distance is still k deviations of the trailing window
+    for p in ([5, 20] if quick else [3, 5, 8, 13, 20, 34, 55]):
+        for mt in ([1, 2, 12, 23] if quick else [1, 2, 3, 5, 12, 23, 10]):
+            j += 1
+            cases.append({"kind": "bollinger", "p": p, "up": rng.choice([1, 2, 3]), "dn": rng.choice([1, 2, 3]), "matype": mt,
+                          "src": rng.choice(PRICE_SRC), "series": (["trend", "random", "monotone"][j % 3], n, 1 + j % 3),
+                          "cap": (5, 60)})
+        for dt in (1, 2):
+            j += 1
+            cases.append({"kind": "bollinger", "p": p, "up": 2, "dn": 1, "matype": rng.choice([0, 1]), "devtype": dt,
+                          "src": rng.choice(PRICE_SRC), "series": pick_series(j), "cap": (5, 60)})
+    for row in SQUARES:
+        for p in ([5, 14] if quick else [2, 5, 14, 30, 60]):
+            j += 1
+            cases.append({"kind": "window", "row": row + (0,), "p": p, "src": rng.choice(PRICE_SRC), "series": pick_series(j),
+                          "cap": (5, 60), "nbdev": 2})
+    # huge and tiny price levels with small ranges relative to the level (offset lattice in ticks)
+    for li, (lvl, tick) in enumerate(LEVELS):
+        for row in WINDOW:
+            if row[0] in LEVEL_WINDOW:
+                for p in ([14, 3] if row[4] else [1]):
+                    j += 1
+                    cs = {"kind": "window", "row": row, "p": p, "src": "close", "series": (["random", "trend", "spike"][j % 3], n, 1 + j % 3),
+                          "level": [lvl, tick]}
+                    if row[0] == "cci":
+                        cs["k"] = 2       # at 5e9 the typical price itself carries ~1e-6 of rounding
+                    cases.append(cs)
+        for row in SMOOTH:
+            if row[0] in LEVEL_SMOOTH:
+                for p in [14, 3]:
+                    j += 1
+                    cases.append({"kind": "smooth", "row": row, "p": p, "src": "close",
+                                  "series": (["random", "trend", "alternating"][j % 3], 300, 1 + j % 3),
+                                  "level": [lvl, tick]})
+        for p, q, dd in [(14, 3, 3), (3, 2, 2)]:
+            j += 1
+            cases.append({"kind": "stoch", "p": p, "q": q, "d": dd, "series": pick_series(j), "level": [lvl, tick]})
+        for row in RANGES:
+            j += 1
+            cases.append({"kind": "range", "row": row, "series": (["random", "spike", "trend"][j % 3], n, 1 + j % 3),
+                          "level": [lvl, tick]})
     for p in ([5, 20] if quick else [2, 3, 5, 10, 20, 40, 60]):
-        for mlt, mt in ([(2, 1), (1.5, 0)]):
+        for mlt, mt in ([(2, 1), (1.5, 0), (2.5, 2), (1, 12)]):
             j += 1
             cases.append({"kind": "keltner", "p": p, "m": mlt, "matype": mt, "src": rng.choice(PRICE_SRC), "series": pick_series(j)})
     for p in ([2, 20] if quick else [2, 3, 5, 10, 20, 40, 60]):
